@@ -167,6 +167,7 @@ def judge(ctx, prop, base, c, cmds, results, trace, step, post_oracle=None):
             else:
                 batches.append((ev["ts"], [ev]))
         seen = []
+        log_order = None
         for ts, group in batches:
             owners = {owner_of(ev, cmds) for ev in group} - {None}
             if len(owners) > 1:
@@ -180,6 +181,7 @@ def judge(ctx, prop, base, c, cmds, results, trace, step, post_oracle=None):
             if results[o]["exit"] != 0:
                 ctx.violation("%s a command that failed changed the store (%s)" % (prop, cmds[o][0]["cmd"]),
                               "P%d exited %s (%s) but its events are in the log" % (o, results[o]["exit"], results[o]["stderr"].strip()[:80]), {"trace": trace + [step]}); return True
+        log_order = list(seen)
     elif not data.startswith(pre) and not rewrote:
         ctx.violation("%s earlier log bytes changed" % prop, "the log no longer starts with its previous content and no rewrite command succeeded", {"trace": trace + [step]}); return True
     # serial equivalence: the commands that actually ran (everything except lock-busy failures), one at a time in some order,
@@ -188,6 +190,11 @@ def judge(ctx, prop, base, c, cmds, results, trace, step, post_oracle=None):
     got = crash.timeless(g["graph"])
     want_pattern = {i: results[i]["exit"] == 0 for i in ran}
     orders = [ran, list(reversed(ran))] if len(ran) == 2 else [ran]
+    # the log is the commit order: when both commands wrote, the only serial order that can explain the outcome is the order of their batches in the
+    # log — a command whose lines come second decided on a store that already held the other's (C02_each_commit_decided_on_predecessors)
+    by_log = bool(data.startswith(pre) and not rewrote and log_order and len(ran) == 2 and sorted(log_order) == sorted(ran))
+    if by_log:
+        orders = [log_order]
     details = []
     matches = False
     got_replies = {i: timeless_reply(cmds[i][0], results[i]) for i in ran}
@@ -208,6 +215,10 @@ def judge(ctx, prop, base, c, cmds, results, trace, step, post_oracle=None):
         ctx.violation("%s reply differs from the serial run with the same outcome (%s, with %s concurrent)" % (prop, cmds[bad][0]["cmd"], cmds[1 - bad][0]["cmd"]),
                       "P%d printed %s; run one at a time in the order %s — same exits, same final state — it prints %s" % (bad, json.dumps(got_replies[bad])[:300], order, json.dumps(replies[bad])[:300]),
                       {"trace": trace + [step]}); return True
+    if not matches and by_log:
+        ctx.violation("%s a command decided on a store that was no longer current (%s ∥ %s)" % (prop, cmds[0][0]["cmd"], cmds[1][0]["cmd"]),
+                      "the log holds P%d's lines before P%d's, but the outcome is not that of running them in this order: exits %s; serial run in log order (order, exits) %s" %
+                      (log_order[0], log_order[1], [r_["exit"] for r_ in results], details), {"trace": trace + [step]}); return True
     if not matches:
         ctx.violation("%s concurrent outcome matches no serial order of the commands that ran (%s ∥ %s)" % (prop, cmds[0][0]["cmd"], cmds[1][0]["cmd"]),
                       "exits %s; serial attempts (order, exits) %s; no order gives this success/failure pattern with this final state" % ([r_["exit"] for r_ in results], details),
@@ -273,6 +284,25 @@ def one_schedule(ctx, prop, base, cmds, point, mode, trace, prog, post_oracle=No
             if pk is not None:
                 pk.kill()
         c.close()
+
+
+def explore_fixed(ctx, prop, base, cmds, trace, labels=("A", "B"), with_stat=True, b_modes=("complete",), post_oracle=None, env_extra=None):
+    """a given pre-state and a given pair of commands: A parked after *every* one of its calls on the store (stat calls included), B as in b_modes"""
+    (reqA, agA, envA) = cmds[0]
+    argvA, stdinA = cmdrun.argv_of(reqA, agA), cmdrun.stdin_of(reqA)
+    callsA = (strace.CALLS + "," + strace.STAT_CALLS) if with_stat else None
+    solo = crash.clone(base)
+    try:
+        _, _, _, stepsA = strace.run(solo, argvA, stdinA, env=envA, calls=callsA)
+    finally:
+        solo.close()
+    pts = strace.kill_points(stepsA)
+    prog = strace.summarize(stepsA)
+    for pt in pts:
+        for mode in b_modes:
+            if one_schedule(ctx, prop, base, cmds, pt, mode, trace, prog, post_oracle, label=labels, env_extra=env_extra, calls=callsA) == "violation":
+                return "violation"
+    return "ok"
 
 
 def is_schedule_replay(doc):
